@@ -4,7 +4,7 @@ SPEC = {
     "level": "model_checking",
     # Two stages of the same harness: the sanitizer build (ASan+UBSan monitor on every transition, linear runs at the real limits)
     # and a plain -O2 build of the same sources that reaches greater depths / fixpoints for the functional oracle (~5.5x faster).
-    # Deadlines are generous on purpose (other checks share the machine); the enumerations need ~1 min (quick) / ~7 min (thorough)
+    # Deadlines are generous on purpose (other checks share the machine); the enumerations need ~1.5 min (quick) / ~9 min (thorough)
     # of wall time on 16 idle cores.
     "stages": [
         {"name": "san", "harness": "C07_follower.cpp", "config": "san", "args": ["--stage", "san"],
@@ -16,9 +16,12 @@ SPEC = {
                   "history replayed on a fresh follower (the object is not copyable), stepped in lock-step with a reference connection table"),
     "rule": ("Per job one BFS over the product (real Tins::TCPIP::StreamFollower) x (reference connection table) for one configuration "
              "(follow_partial_streams off/on) x (library limits 512 chunks / 3 MiB / 5 min | limits written down to 2 chunks / 4 bytes, keep-alive "
-             "set to 10 s) and one PAIR of connections out of 16: all pairs of {v4 1.2.3.4:1000->2.2.2.2:80, other client port, other server "
-             "port, same ports on swapped hosts, a v6 connection, the v6 connection whose address bytes are the v4 bytes zero-padded} plus "
-             "(v4, v6 with the v4-mapped ::ffff:a.b.c.d addresses). Alphabet per connection: SYN, SYN+ACK, ACK, client data segment 0..2 "
+             "set to 10 s) and one PAIR of connections out of 22: all pairs of {v4 1.2.3.4:1000->2.2.2.2:80, other client port, other server "
+             "port, same ports on swapped hosts, a v6 connection, the v6 connection whose address bytes are the v4 bytes zero-padded}, "
+             "(v4, v6 with the v4-mapped ::ffff:a.b.c.d addresses), and v4 paired with each of four templates whose direction is decided by one "
+             "coordinate only (client port == server port in v4/v6: only the address tells client from server; same host on both sides in "
+             "v4/v6: only the port does) plus equal-ports with same-host per family; quick tier: the 10 pairs containing the base v4 template "
+             "(sanitizer stage: 4 more), thorough: all 22; a pair contains every history in which only one connection sends. Alphabet per connection: SYN, SYN+ACK, ACK, client data segment 0..2 "
              "(1,1,3 bytes), server data segment 0..2 (1,1,2 bytes) in any order with duplicates, FIN per side, RST per side, a first packet "
              "that is not the SYN (mid-stream start: attaches with partial following, must be ignored for good without), each event with a "
              "time increment from {0, keep-alive/2, keep-alive, keep-alive+1us}; packets are Ethernet/IP(v6)/TCP/payload frames serialized "
